@@ -715,8 +715,54 @@ def run_recipe(h, recipe):
         run_opinfo(h, recipe)
     elif kind == "corpus":
         run_corpus(h, recipe)
+    elif kind == "many_names":
+        run_many_names(h, recipe)
+    elif kind == "hash_collision":
+        run_hash_collision(h, recipe)
     else:
         raise AssertionError(kind)
+
+
+def run_many_names(h, recipe):
+    """The same unregistered attribute/type text parsed in two fresh contexts must be equal even when
+    many other unregistered names were seen in between (any per-name class table must not forget)."""
+    n = recipe["n"]
+    probe = '[#und.probe<1>, !und.tprobe<"x">]'
+    a = parse_text(probe)
+    for i in range(n):
+        parse_text(f"[#und.n{i}<{i}>, !und.t{i}]")
+    b = parse_text(probe)
+    _case(h, recipe, True, "many_names")
+    if a is None or b is None or a is TIMEOUT or b is TIMEOUT:
+        h.mismatch({"check": "two_contexts_parse", "cls": "-", "value_class": "many_names", "parent": "-"},
+                   recipe, "probe text did not parse")
+        return
+    if not (a == b and b == a and hash(a) == hash(b)):
+        h.mismatch({"check": "two_contexts_unequal", "cls": "UnregisteredAttr", "value_class": "many_names_between"},
+                   recipe, f"same text parsed before and after {n} other unregistered names: equal={a == b}")
+
+
+def run_hash_collision(h, recipe):
+    """CSE keys (OperationInfo) of two ops whose only difference is an attribute/property value with the
+    SAME Python hash (hash(-1) == hash(-2), hash(n) == hash(n + 2**61 - 1)) must be unequal."""
+    from xdsl.dialects.builtin import IntegerAttr, i64
+    from xdsl.dialects.test import TestOp
+    from xdsl.transforms.common_subexpression_elimination import OperationInfo
+    x, y = [(-1, -2), (5, 5 + 2**61 - 1), (0, 2**61 - 1)][recipe["pair"] % 3]
+    where = recipe["where"]
+    ax, ay = IntegerAttr(x, i64), IntegerAttr(y, i64)
+    _case(h, recipe, True, "hash_collision")
+    if hash(ax) != hash(ay):
+        h.count("hash_collision_pair_hashes_differ")
+    kw = "properties" if where == "prop" else "attributes"
+    key = "prop1" if where == "prop" else "v"
+    o1 = TestOp.create(result_types=[i64], **{kw: {key: ax}})
+    o2 = TestOp.create(result_types=[i64], **{kw: {key: ay}})
+    if ax == ay:
+        h.mismatch({"check": "diff_equal", "cls": "IntegerAttr", "value_class": "hash_collision"}, recipe, f"{ax} == {ay}")
+    if OperationInfo(o1) == OperationInfo(o2) or OperationInfo(o2) == OperationInfo(o1):
+        h.mismatch({"check": "opinfo_diff_equal", "cls": "OperationInfo", "value_class": "hash_collision", "where": where},
+                   recipe, f"ops differing only in {kw}[{key}] = {x} vs {y} have equal CSE keys")
 
 
 def replay(h, recipe):
@@ -876,6 +922,13 @@ def checks(h):
             idx += 1
             if idx % h.nshards == h.shard:
                 run_recipe(h, r)
+
+    if h.shard == 0:
+        run_recipe(h, {"kind": "many_names", "n": 300})
+    if h.shard == 1 % h.nshards:
+        for pair in range(3):
+            for where in ("prop", "attr"):
+                run_recipe(h, {"kind": "hash_collision", "pair": pair, "where": where})
 
     # corpus files of this shard (dialect attributes)
     from vt import corpus
